@@ -19,7 +19,7 @@ ASSUMPTIONS = ['tm_exact (vmon/oracles/tm.py) is the reference; it is re-validat
 N = {'quick': 3000, 'thorough': 40000}     # cases per shard
 SHARDS = {'quick': 16, 'thorough': 32}
 ASPECTS = ('F',)
-REQUIRED_COUNTERS = ['alias_sequences', 'branch:isg-auto-zone', 'branch:isg-central-meridian', 'branch:north-false-northing', 'branch:utm-auto-zone']
+REQUIRED_COUNTERS = ['across_antimeridian_cases', 'alias_sequences', 'branch:isg-auto-zone', 'branch:isg-central-meridian', 'branch:north-false-northing', 'branch:utm-auto-zone']
 
 
 def plan(tier, seed):
